@@ -1,5 +1,115 @@
+// C20: bit-exact traces of the public qrAlgorithm.QRstep on 2x2 blocks and whole runs of
+// qrAlgorithm.Run on 2x2 matrices (returned matrix / hang), replayed by the binary64
+// instance of the exact model (coq/C20/Model.v qrstep2, qr_run2).
 package main
 
-import . "adharness/common"
+import (
+	"fmt"
+	"math"
+	"time"
 
-func runQRTrace(opts Opts) { _ = opts; Die("qrstep: not built yet") }
+	. "adharness/common"
+
+	ad "github.com/pbenner/autodiff"
+	"github.com/pbenner/autodiff/algorithm/qrAlgorithm"
+)
+
+type QCase struct {
+	Kind  string      `json:"kind"` // step | run
+	H     [4]float64  `json:"h"`
+	Eps   float64     `json:"eps"`
+	Trace [][4]float64 `json:"trace,omitempty"`
+	Hung  bool        `json:"hung"`
+	Final [4]float64  `json:"final"`
+}
+
+func blk(h [4]float64) string {
+	return fmt.Sprintf("(mkblk %s %s %s %s)", F(h[0]), F(h[1]), F(h[2]), F(h[3]))
+}
+func read4(m ad.Matrix) [4]float64 {
+	return [4]float64{m.Float64At(0, 0), m.Float64At(0, 1), m.Float64At(1, 0), m.Float64At(1, 1)}
+}
+
+func runQRTrace(opts Opts) {
+	rng := NewRng(opts.Seed ^ 0x9A)
+	w := NewCaseWriter(opts.Out, "qr",
+		"From Coq Require Import ZArith List Bool Floats.\nFrom ADV Require Import C20.Model C20.Corr.\nImport ListNotations.\nOpen Scope float_scope.\n",
+		"ADV.C20.Corr.qmism", 60)
+	w.Type = "ADV.C20.Corr.qcase"
+	w.Rule = "a QR case is non-trivial iff the block is not already deflated (h21 != 0)"
+	var hs [][4]float64
+	hs = append(hs, [4]float64{0, 1, 1, 0}, [4]float64{0, -1, -1, 0}, [4]float64{1, 1, 1, 1}, [4]float64{2, 1, 1, 2},
+		[4]float64{1, 2, 3, 4}, [4]float64{0, -1, 1, 0}, [4]float64{1, 0, 0, 1}, [4]float64{0, 0, 0, 0},
+		[4]float64{4, 1, 2, 3}, [4]float64{1, 1, 0, 1}, [4]float64{1e-20, 1, 1, 1e-20}, [4]float64{3, -2, 4, -1},
+		[4]float64{5, 4, 1, 2}, [4]float64{1, 1e8, 1e-8, 1})
+	n := 40
+	if opts.Tier == "thorough" {
+		n = 400
+	}
+	for i := 0; i < n; i++ {
+		var h [4]float64
+		for k := range h {
+			switch rng.Intn(4) {
+			case 0:
+				h[k] = float64(rng.Range(-3, 3))
+			default:
+				h[k] = (rng.Float() - 0.5) * math.Pow(10, float64(rng.Range(-3, 3)))
+			}
+		}
+		hs = append(hs, h)
+	}
+	t := ad.Float64Type
+	for _, h0 := range hs {
+		// (a) k successive public QRstep calls on the 2x2 block
+		h := ad.NewDenseFloat64Matrix([]float64{h0[0], h0[1], h0[2], h0[3]}, 2, 2)
+		is := &qrAlgorithm.InSitu{T1: ad.NullScalar(t), T2: ad.NullScalar(t), T3: ad.NullScalar(t), S: ad.NullScalar(t), T: ad.NullScalar(t)}
+		c := QCase{Kind: "step", H: h0}
+		var tr []string
+		for k := 0; k < 5; k++ {
+			qrAlgorithm.QRstep(h, nil, 0, 0, is)
+			r := read4(h)
+			c.Trace = append(c.Trace, r)
+			tr = append(tr, blk(r))
+		}
+		w.Add(fmt.Sprintf("QStep %s %s", blk(h0), List(tr)), jsonSafe(c), fmt.Sprint(h0), h0[2] != 0)
+		w.Count("step")
+		// (b) the whole run (Hessenberg reduction is the identity for n = 2)
+		for _, eps := range []float64{1e-18, 1e-12} {
+			a := ad.NewDenseFloat64Matrix([]float64{h0[0], h0[1], h0[2], h0[3]}, 2, 2)
+			done := make(chan [4]float64, 1)
+			go func() {
+				defer func() { recover() }()
+				r, _, err := qrAlgorithm.Run(a, qrAlgorithm.Epsilon{Value: eps})
+				if err == nil {
+					done <- read4(r)
+				}
+			}()
+			rc := QCase{Kind: "run", H: h0, Eps: eps}
+			select {
+			case f := <-done:
+				rc.Final = f
+			case <-time.After(700 * time.Millisecond):
+				rc.Hung = true // the goroutine keeps spinning until this process exits
+			}
+			w.Add(fmt.Sprintf("QRun %s %s %s %s", blk(h0), F(eps), B(rc.Hung), blk(rc.Final)), jsonSafe(rc), fmt.Sprint(h0, eps), h0[2] != 0)
+			if rc.Hung {
+				w.Count("run:hung")
+			} else {
+				w.Count("run:returned")
+			}
+		}
+	}
+	if err := w.Flush(); err != nil {
+		Die("flush: %v", err)
+	}
+}
+
+// JSON cannot carry NaN/Inf: print the floats as strings
+func jsonSafe(c QCase) map[string]interface{} {
+	f4 := func(x [4]float64) []string { return []string{F(x[0]), F(x[1]), F(x[2]), F(x[3])} }
+	tr := [][]string{}
+	for _, t := range c.Trace {
+		tr = append(tr, f4(t))
+	}
+	return map[string]interface{}{"kind": c.Kind, "h": f4(c.H), "eps": F(c.Eps), "trace": tr, "hung": c.Hung, "final": f4(c.Final)}
+}
